@@ -43,6 +43,39 @@ func NewTaint(c *Ctx, sources map[*types.Var]string, gates []gateSpec) *Taint {
 	for _, g := range gates {
 		t.gates[g.Fn] = g
 	}
+	// a helper of the gate's package that is handed both the data and the flag is a gate itself (e.g. the choice
+	// between the data and the redaction marker moved into its own function)
+	for changed := true; changed; {
+		changed = false
+		for _, g := range t.gates {
+			if g.DataParam >= len(g.Fn.Params) || g.FlagParam >= len(g.Fn.Params) {
+				continue
+			}
+			data, flag := ssa.Value(g.Fn.Params[g.DataParam]), ssa.Value(g.Fn.Params[g.FlagParam])
+			for _, ci := range callInstrs(g.Fn) {
+				h := ci.Common().StaticCallee()
+				if h == nil || h.Pkg != g.Fn.Pkg || h.Object() == nil || h.Object().Exported() || len(h.Blocks) == 0 {
+					continue
+				}
+				if _, done := t.gates[h]; done {
+					continue
+				}
+				di, fi := -1, -1
+				for ai, a := range ci.Common().Args {
+					if stripConv(a) == data {
+						di = ai
+					}
+					if a == flag {
+						fi = ai
+					}
+				}
+				if di >= 0 && fi >= 0 && di < len(h.Params) && fi < len(h.Params) {
+					t.gates[h] = gateSpec{Fn: h, DataParam: di, FlagParam: fi}
+					changed = true
+				}
+			}
+		}
+	}
 	t.fns = c.LibFns
 	for f, l := range sources {
 		t.fields[f] = true
@@ -341,6 +374,20 @@ func (t *Taint) stepInstr(fn *ssa.Function, in ssa.Instruction) {
 		if r == nil {
 			r = make([]bool, len(x.Results))
 			t.rets[fn] = r
+		}
+		// in a gate, what is returned on the flag-false edge is the un-redacted alternative: guarded like a phi edge
+		if g, isGate := t.gates[fn]; isGate && g.FlagParam < len(fn.Params) {
+			flag := ssa.Value(fn.Params[g.FlagParam])
+			for _, ec := range edgeConds(x.Block()) {
+				v, neg := unwrapNot(ec.Cond)
+				truth := ec.Truth
+				if neg {
+					truth = !truth
+				}
+				if v == flag && !truth {
+					return
+				}
+			}
 		}
 		for i, v := range x.Results {
 			if i < len(r) && t.vals[v] && !r[i] {
